@@ -1,62 +1,129 @@
 ----------------------------- MODULE MacroTable -----------------------------
 (* C17, macro level.  Histories of #define / #undef / #include of a guarded
-   header over a few macro names.  Level A: a name is defined iff its most
-   recent operation was a definition (then with that definition's body); an
-   #include of the header H(k) = "#ifndef k / #define k g / text / #endif" is
-   plain textual inclusion: it emits its text and defines k iff k is undefined
-   at that point.  Level I: chibicc's re-inclusion shortcut — the include-guard
-   memo (header -> guard name, filled at the first inclusion) consulted
-   together with the macro table: a header is skipped iff its memoised guard is
-   currently defined.  Invariant: the shortcut never changes the emitted text
-   or the macro table.  Every transition (and its one-step extensions) is
-   written out and replayed through `chibicc -E`.                            *)
+   header / uses over a few macro names.
+
+   The table does not start empty: besides the user's names (initially
+   undefined) there are PREDEFINED names, of two kinds - static ones whose
+   replacement list was installed by init_macros (value PRE), and DYNAMIC ones
+   (__LINE__, __FILE__, __COUNTER__, __TIMESTAMP__, __BASE_FILE__: value DYN)
+   whose expansion is computed by a handler at every use; the n-th dynamic use
+   of a name carries its serial number n (observable for __COUNTER__).
+
+   Level A: a name is defined iff its most recent operation was a definition
+   (then with that definition's replacement list, whatever the table held for
+   it before - user definition, predefined list or handler); a name no
+   operation touched still has its initial meaning; an #include of the header
+   H(k) = "#ifndef k / #define k g / text / #endif" is plain textual
+   inclusion: it emits its text and defines k iff k is undefined at that point;
+   a use of k emits what k means at that point.
+
+   Level I: chibicc's table of Macro objects - an entry is (body, handler);
+   expand_macro looks at the handler first; add_macro allocates a fresh entry
+   (handler = NULL), add_builtin sets the handler afterwards; plus the
+   re-inclusion shortcut - the include-guard memo (header -> guard name,
+   filled at the first inclusion) consulted together with the macro table: a
+   header is skipped iff its memoised guard is currently defined.
+
+   Invariants: Level I emits the same text (SameText) and every name means the
+   same in both (SameTable).  Every transition (and its one-step extensions)
+   is written out and replayed through `chibicc -E`.
+
+   Controls TLC must reject: StaleGuard (an #undef'd guard still counts as
+   defined in the shortcut), KeepHandler (a redefinition updates the existing
+   entry in place and leaves its handler alone).                             *)
 EXTENDS Integers, Sequences, TLC, Json, CSV, IOUtils, SequencesExt
 
-CONSTANTS NK, Emit, StaleGuard   \* StaleGuard: an #undef'd guard still counts as defined in the shortcut (control)
+CONSTANTS NK,            \* user names 1..NK (initially undefined; each is the guard of a header)
+          NP,            \* predefined static names NK+1..NK+NP
+          ND,            \* predefined dynamic names NK+NP+1..NK+NP+ND
+          Emit, StaleGuard, KeepHandler
 
-Keys == 1..NK
-G == 3                              \* value a header gives to its guard
+User == 1..NK
+Pre  == (NK + 1)..(NK + NP)
+Dyn  == (NK + NP + 1)..(NK + NP + ND)
+Keys == 1..(NK + NP + ND)
+G   == 3                            \* value a header gives to its guard
+PRE == 7                            \* the replacement list init_macros installed
+DYN == 8                            \* computed by the handler at each use
 (* values: 1, 2 object-like bodies; 3 = G; 4, 5, 6 function-like definitions that differ only in the NAMES /
-   ORDER of their parameters or in the body: 4 = K(a,b) a - b, 5 = K(b,a) a - b, 6 = K(a,b) b - a *)
-Ops == { <<"def", k, v>> : k \in Keys, v \in {1, 2, 4, 5, 6} } \cup { <<"undef", k, 0>> : k \in Keys }
-         \cup { <<"inc", k, 0>> : k \in Keys }
+   ORDER of their parameters or in the body: 4 = K(a,b) a - b, 5 = K(b,a) a - b, 6 = K(a,b) b - a.
+   Predefined names are redefined with one object-like and one function-like definition.                      *)
+DefVals(k) == IF k \in User THEN {1, 2, 4, 5, 6} ELSE {1, 4}
+Ops == UNION { { <<"def", k, v>> : v \in DefVals(k) } : k \in Keys } \cup { <<"undef", k, 0>> : k \in Keys }
+         \cup { <<"inc", k, 0>> : k \in User } \cup { <<"use", k, 0>> : k \in Keys }
 
 OpsSeq == SetToSeq(Ops)
 
-VARIABLES def,     \* Level A = Level I macro table: key -> 0 (undefined) | value
+VARIABLES def,     \* Level A macro table: key -> 0 (undefined) | value
+          cnt,     \* Level A: key -> number of dynamic uses so far
+          ent,     \* Level I macro table: key -> [p |-> present, b |-> body value, h |-> has a handler]
+          cntI,    \* Level I: dynamic uses so far
           memo,    \* Level I: headers whose guard has been detected
           ever,    \* Level I ghost: keys that were defined at some time (what a stale table would still hold)
           outA, outI, hist
-vars == <<def, memo, ever, outA, outI, hist>>
-View == <<def, memo, ever, outA = outI>>
+vars == <<def, cnt, ent, cntI, memo, ever, outA, outI, hist>>
+View == <<def, ent, memo, ever, outA = outI>>
 
-Init == /\ def = [k \in Keys |-> 0] /\ memo = {} /\ ever = {}
+Init0(k) == IF k \in User THEN 0 ELSE IF k \in Pre THEN PRE ELSE DYN
+Absent == [p |-> FALSE, b |-> 0, h |-> FALSE]
+Init == /\ def = [k \in Keys |-> Init0(k)] /\ cnt = [k \in Keys |-> 0]
+        /\ ent = [k \in Keys |-> IF k \in User THEN Absent                               \* init_macros:
+                                 ELSE IF k \in Pre THEN [p |-> TRUE, b |-> PRE, h |-> FALSE]  \*   define_macro
+                                 ELSE [p |-> TRUE, b |-> 0, h |-> TRUE]]                      \*   add_builtin
+        /\ cntI = [k \in Keys |-> 0]
+        /\ memo = {} /\ ever = {}
         /\ outA = <<>> /\ outI = <<>> /\ hist = <<>>
 
+Ev(t, k, v, n) == [t |-> t, k |-> k, v |-> v, n |-> n]
+
+(* ---- Level A ---- *)
 ApplyA(d, op) ==
   CASE op[1] = "def"   -> [d EXCEPT ![op[2]] = op[3]]
     [] op[1] = "undef" -> [d EXCEPT ![op[2]] = 0]
     [] op[1] = "inc"   -> IF d[op[2]] = 0 THEN [d EXCEPT ![op[2]] = G] ELSE d
-EmitA(d, op) == IF op[1] = "inc" /\ d[op[2]] = 0 THEN <<op[2]>> ELSE <<>>
+    [] OTHER           -> d
+CountA(d, c, op) == IF op[1] = "use" /\ d[op[2]] = DYN THEN [c EXCEPT ![op[2]] = @ + 1] ELSE c
+EmitA(d, c, op) ==
+  CASE op[1] = "inc" /\ d[op[2]] = 0 -> << Ev("G", op[2], 0, 0) >>
+    [] op[1] = "use"                 -> << Ev("U", op[2], d[op[2]], c[op[2]]) >>
+    [] OTHER                         -> <<>>
+Fin(d, c) == [i \in Keys |-> [v |-> d[i], n |-> c[i]]]      \* what a probe of every name shows at the end
+
+(* ---- Level I ---- *)
+Means(e) == IF ~e.p THEN 0 ELSE IF e.h THEN DYN ELSE e.b     \* find_macro + expand_macro (handler first)
+AddMacro(e, v) == [p |-> TRUE, b |-> v, h |-> IF KeepHandler /\ e.p THEN e.h ELSE FALSE]
 
 Step(op) ==
   LET k  == op[2]
-      skipI == op[1] = "inc" /\ k \in memo /\ (def[k] # 0 \/ (StaleGuard /\ k \in ever))
+      defdI == Means(ent[k]) # 0
+      skipI == op[1] = "inc" /\ k \in memo /\ (defdI \/ (StaleGuard /\ k \in ever))
+      readI == op[1] = "inc" /\ ~skipI
   IN /\ Len(hist) < 6
      /\ hist' = Append(hist, op)
      /\ def' = ApplyA(def, op)
-     /\ outA' = outA \o EmitA(def, op)
-     /\ outI' = outI \o (IF op[1] = "inc" /\ ~skipI /\ def[k] = 0 THEN <<k>> ELSE <<>>)
-     /\ memo' = IF op[1] = "inc" /\ ~skipI THEN memo \cup {k} ELSE memo
+     /\ cnt' = CountA(def, cnt, op)
+     /\ outA' = outA \o EmitA(def, cnt, op)
+     /\ ent' = CASE op[1] = "def"     -> [ent EXCEPT ![k] = AddMacro(@, op[3])]
+                 [] op[1] = "undef"   -> [ent EXCEPT ![k] = Absent]
+                 [] readI /\ ~defdI   -> [ent EXCEPT ![k] = AddMacro(@, G)]
+                 [] OTHER             -> ent
+     /\ cntI' = IF op[1] = "use" /\ Means(ent[k]) = DYN THEN [cntI EXCEPT ![k] = @ + 1] ELSE cntI
+     /\ outI' = outI \o (CASE readI /\ ~defdI  -> << Ev("G", k, 0, 0) >>
+                           [] op[1] = "use"    -> << Ev("U", k, Means(ent[k]), cntI[k]) >>
+                           [] OTHER            -> <<>>)
+     /\ memo' = IF readI THEN memo \cup {k} ELSE memo
      /\ ever' = IF def'[k] # 0 THEN ever \cup {k} ELSE ever
-     /\ (Emit => CSVWrite("%1$s", <<ToJson([hist |-> hist', out |-> outA',
-                              fin |-> [i \in Keys |-> def'[i]],
-                              nx |-> [j \in DOMAIN OpsSeq |-> [op |-> OpsSeq[j], out |-> outA' \o EmitA(def', OpsSeq[j]),
-                                                      fin |-> [i \in Keys |-> ApplyA(def', OpsSeq[j])[i]]]]])>>, IOEnv.OUT))
+     /\ (Emit => CSVWrite("%1$s", <<ToJson([hist |-> hist', out |-> outA', fin |-> Fin(def', cnt'),
+                              nx |-> [j \in DOMAIN OpsSeq |->
+                                        [op |-> OpsSeq[j], out |-> outA' \o EmitA(def', cnt', OpsSeq[j]),
+                                         fin |-> Fin(ApplyA(def', OpsSeq[j]), CountA(def', cnt', OpsSeq[j]))]]])>>,
+                          IOEnv.OUT))
 
 Next == \E op \in Ops : Step(op)
 Spec == Init /\ [][Next]_vars
 
-(* the re-inclusion shortcut never changes the token stream *)
+(* the re-inclusion shortcut and the table of Macro objects never change the token stream *)
 SameText == outA = outI
+(* every name means in chibicc's table what its most recent operation (or, untouched, its initial state) says *)
+SameTable == \A k \in Keys : Means(ent[k]) = def[k]
 =============================================================================
